@@ -423,6 +423,9 @@ def gen_swarm(rng, tier="quick"):
         plan += [f"repeat:{j}" for j in again] + ["add"]
         sw["echo"] = plan
         sw["nops"] = len(plan)
+    sw["foreign"] = rng.random() < 0.2
+    if sw["foreign"]:
+        sw["nops"] += 2
     return sw
 
 
@@ -441,6 +444,18 @@ def gen_op(rng, m: Model, swarm, nalg, prev=(), step=0):
     ks = [k for k in OPKINDS if swarm["w"][k] > 0]
     k = rng.choices(ks, weights=[swarm["w"][x] for x in ks])[0]
     echo = swarm.get("echo")
+    if swarm.get("foreign") and not (echo and step < len(echo)) and step > 0 and rng.random() < 0.3:
+        # another setup object alive in the same process is worked on in between (not judged itself): whatever one
+        # setup keeps at class or module level must not reach the other
+        do = rng.choice(["decimate", "filter", "detrend", "rollback", "new"])
+        op = {"op": "foreign", "kind": rng.choice(["single", "preger"]), "do": do}
+        if do == "decimate":
+            op["q"] = rng.randint(2, 5)
+        elif do == "filter":
+            op["rel"] = round(rng.uniform(0.1, 0.8), 4)
+            op["order"] = rng.randint(1, 8)
+            op["same_args_as_last"] = rng.random() < 0.5
+        return op
     if echo and step < len(echo):
         tok = echo[step]
         if tok.startswith("repeat:"):
@@ -582,6 +597,41 @@ def _call_real(setup, op):
     raise AssertionError(k)
 
 
+def _foreign_op(store, world, op, ops_so_far):
+    """Work on another setup object (own data, another sampling frequency). Never judged; errors are its own."""
+    from pyoma2.setup import MultiSetup_PreGER, SingleSetup
+
+    kind = op["kind"]
+    fs2 = float(world["fs"]) * 0.5 + 3.0
+    if kind not in store or op["do"] == "new":
+        n = 400
+        if kind == "single":
+            store[kind] = SingleSetup(datagen.resonator_record(world["data_seed"] + 17, n, 3, fs2, nmodes=2, trend=True), fs=fs2)
+        else:
+            ds = [datagen.resonator_record(world["data_seed"] + 23 + i, n + 37 * i, 3, fs2, nmodes=2, trend=True) for i in range(2)]
+            store[kind] = MultiSetup_PreGER(fs=fs2, ref_ind=[[0], [2]], datasets=ds)
+        if op["do"] == "new":
+            return
+    f = store[kind]
+    try:
+        if op["do"] == "decimate":
+            f.decimate_data(q=op["q"])
+        elif op["do"] == "detrend":
+            f.detrend_data()
+        elif op["do"] == "rollback":
+            f.rollback()
+        elif op["do"] == "filter":
+            last = [o for o in ops_so_far if o.get("op") == "filter"]
+            if op.get("same_args_as_last") and last:
+                # the very arguments the setup under test used last (another fs: another design)
+                o = last[-1]
+                f.filter_data(Wn=o["Wn"], **{k_: o[k_] for k_ in ("order", "btype") if k_ in o})
+            else:
+                f.filter_data(Wn=op["rel"] * float(f.fs) / 2.0, order=op["order"])
+    except Exception:
+        pass
+
+
 def _site(op):
     return {"decimate": "decimate", "detrend": "detrend", "filter": "filter_data"}[op["op"]]
 
@@ -656,6 +706,7 @@ def run_case(seed, tier="quick", case=None, known=()):
     v, kn = cmp_state(m, observe(setup, m.kind), m.ds, m.fs, None, "initial")
     for o, d in v:
         stop |= violate(o, None, -1, d)
+    _foreign = {}  # kind -> another setup object alive next to the one under test
     bound = []  # (name, alg, hash-of-bound-data) for probes
     nalg = 0
     changed = 0
@@ -676,7 +727,15 @@ def run_case(seed, tier="quick", case=None, known=()):
         fault = op.get("fault")
         outcome = "ok"
         plan.reset()
-        if k == "add":
+        if k == "foreign":
+            _foreign_op(_foreign, world, op, res["ops"])
+            inc("probe.operation_on_another_setup_in_between")
+            v, kn = cmp_state(m, observe(setup, m.kind), m.ds, m.fs, m.T_stale, "after an operation on ANOTHER setup object")
+            for o, d in v:
+                stop |= violate("iso.other_setup", op, step, f"{o}: {d}")
+            for o, d in kn:
+                violate(o, op, step, d, is_known=True)
+        elif k == "add":
             readd = None
             if "readd" in op:
                 live = [b for b in bound if getattr(setup, "algorithms", {}).get(b[0]) is b[1]]
@@ -860,7 +919,7 @@ def _finish(res, log, m):
     res["log"] = log.dump()
     sig = [s for s in res["sig"]]
     res["signature"] = res["world"]["kind"] + "|" + ">".join(sig)
-    kinds = [s.split(":")[0] for s in sig]
+    kinds = [s.split(":")[0] for s in sig if not s.startswith("foreign:")]
     res["opseq3"] = [res["world"]["kind"] + "|" + ">".join(kinds[:n]) for n in range(1, min(4, len(kinds)) + 1)]
     ok_changes = sum(1 for s in sig if s.split(":")[1] == "ok" and s.split(":")[0] in ("decimate", "detrend", "filter", "rollback"))
     res["nontrivial"] = ok_changes >= 2 or any(s.endswith(":fault") for s in sig)
